@@ -183,7 +183,7 @@ func (s *sim) nextValid(d1 *dumpT, after string, shape string, afterErr bool) {
 			s.hitShapes[shape] = true
 		}
 	}
-	if st := s.store(); st.VerifDefaultBatchPending() != 0 || st.VerifIsBatching() {
+	if st := s.store(); (st.VerifDefaultBatchPending() != 0 || st.VerifIsBatching()) && !noWhiteBox {
 		s.violate("batch-not-empty", "leak:"+shape, "after %s and the valid command %s the shared write batch holds %d operation(s)", after, renderStrs(args), st.VerifDefaultBatchPending())
 	}
 	s.base, s.baseR = d2, r1
@@ -462,7 +462,7 @@ func (s *sim) stepBatch() {
 		s.violate("batch-state-differs", "leak:"+shape, "one apply batch (%s): the state differs from what the commands that answered without error produce in the reference model (expected -> found): %s", strings.Join(line, " ;; "), df)
 		s.hitShapes[shape] = true
 	}
-	if st := s.store(); st.VerifDefaultBatchPending() != 0 || st.VerifIsBatching() {
+	if st := s.store(); (st.VerifDefaultBatchPending() != 0 || st.VerifIsBatching()) && !noWhiteBox {
 		s.violate("batch-not-empty", "leak:"+shape, "after the apply batch (%s) the shared write batch holds %d operation(s) (batching=%v)", strings.Join(line, " ;; "), st.VerifDefaultBatchPending(), st.VerifIsBatching())
 		s.hitShapes[shape] = true
 	}
@@ -554,7 +554,7 @@ func (s *sim) stepPipeline() {
 			s.hitShapes[shape] = true
 		}
 	}
-	if st := s.store(); st.VerifDefaultBatchPending() != 0 || st.VerifIsBatching() {
+	if st := s.store(); (st.VerifDefaultBatchPending() != 0 || st.VerifIsBatching()) && !noWhiteBox {
 		s.violate("batch-not-empty", "leak:"+shape, "after %s the shared write batch holds %d operation(s)", sent, st.VerifDefaultBatchPending())
 	}
 	if t.Bool(s.cfg.nextPm) {
